@@ -4,7 +4,7 @@ import itertools
 from .. import shapes as S
 from ..core import Case
 from .common import place, CTX
-from .c02 import assignments, assignments_k, WIDE
+from .c02 import assignments, assignments_k, WIDE, VERYWIDE, PROBE, verywide_assignments
 
 IGN = ['{T}(ignore)', '{T} = false', '{T}(ignore = true)', '{T}(ignore(true))']
 NOTIGN = [None, '{T} = true', '{T}(ignore = false)']
@@ -22,7 +22,7 @@ def meta(ch, carrier, salt, method):
     return '%s(method(%s))' % (carrier, method) if salt % 2 else '%s(method = "%s")' % (carrier, method)
 
 
-def build(shape, assign, cfg, ctx='alone', small_domain=False, repr=None, discr=None):
+def build(shape, assign, cfg, ctx='alone', small_domain=False, repr=None, discr=None, probe=None):
     """cfg: 'H' Hash only; 'HP' Hash + PartialEq with the same ignore/method choices"""
     tys, fattrs, doms = [], [], []
     salt = 0
@@ -39,7 +39,10 @@ def build(shape, assign, cfg, ctx='alone', small_domain=False, repr=None, discr=
                 if pe:
                     lines = lines + ['#[educe(%s)]' % pe] if salt % 2 else ['#[educe(%s)]' % pe] + lines
             a.append(lines)
-            d.append(['I(0)', 'I(1)'] if ch in 'ix' else (['V(0)', 'V(1)'] if small_domain else ['V(0)', 'V(1)', 'V(2)']))
+            if probe is not None and fi not in probe and ch not in 'ix':
+                d.append(['V(1)'])
+            else:
+                d.append(['I(0)', 'I(1)'] if ch in 'ix' else (['V(0)', 'V(1)'] if small_domain else ['V(0)', 'V(1)', 'V(2)']))
         tys.append(t)
         fattrs.append(a)
         doms.append(d)
@@ -105,6 +108,14 @@ def generate(tier):
     for sh in WIDE:
         for assign in assignments_k(sh, 'cimx', 2 if tier == 'quick' else 3):
             cases.append(build(sh, assign, 'HP' if len(assign) % 2 else 'H', small_domain=True))
+    for sh in VERYWIDE:
+        for assign in verywide_assignments(sh, 'cim'):
+            cases.append(build(sh, assign, 'H', small_domain=True, probe=PROBE))
+    from .common import rawify
+    for c in [x for x in cases if x.key.startswith('C05|H|s:n2|') or x.key.startswith('C05|HP|e:n2,n1|')]:
+        r_ = rawify(c)
+        if r_:
+            cases.append(r_)
     for sh in S.struct_shapes(2) + S.enum_shapes(2, 1) + [S.Shape('enum', [S.Fields('t', 2), S.Fields('n', 2)]),
                                                           S.Shape('enum', [S.Fields('u'), S.Fields('t', 2)])]:
         if not sh.positions():
